@@ -43,6 +43,8 @@ struct Opts {
     bool no_evidence = false;
     int shrink_budget = 400;
     bool stop_early = false;   // selftests: end the batch at the first violation
+    int64_t runs_div = 1;      // the build-variant pass of ./check runs a fraction of the tier's runs
+    std::string summary_out, variant_summary;   // a variant pass leaves its figures for the main pass to put into the evidence
 };
 
 struct Outcome {
@@ -192,12 +194,20 @@ static Outcome evaluate(const Json &plan, bool verbose = false) {
     return o;
 }
 
+// which build of the library and of the header macros this binary holds: the library's assert()s are compiled in ("assertions") or out ("ndebug")
+#ifdef NDEBUG
+static const char *const BUILD_VARIANT = "ndebug";
+#else
+static const char *const BUILD_VARIANT = "assertions";
+#endif
+
 static Json make_case(const std::string &prop, uint64_t seed, uint64_t idx, const Json &plan) {
     Json j = Json::obj();
     j["property"] = prop;
     j["harness"] = H->name();
     j["seed"] = (long long)seed;
     j["index"] = (long long)idx;
+    j["build"] = BUILD_VARIANT;
     j["plan"] = plan;
     return j;
 }
@@ -451,6 +461,10 @@ static int do_replay(const std::string &path) {
     if (!j.has("plan")) { fprintf(stderr, "replay file has no plan\n"); return 2; }
     std::string prop = j.gets("property", O.prop);
     O.prop = prop;
+    if (j.has("build") && j.gets("build") != BUILD_VARIANT) {
+        fprintf(stderr, "replay file was recorded with the '%s' build, this binary is the '%s' build: replay it through ./check, which picks the binary\n", j.gets("build").c_str(), BUILD_VARIANT);
+        return 2;
+    }
     printf("replay: harness=%s property=%s expect_tag=%s\n", H->name(), prop.c_str(), j.gets("tag", "-").c_str());
     Outcome a = evaluate(j, O.verbose);
     Outcome b = evaluate(j, false);
@@ -484,10 +498,11 @@ static std::string sanitize_tag(const std::string &t) {
 static int run_batch() {
     using clk = std::chrono::steady_clock;
     auto t0 = clk::now();
-    const uint64_t total = O.runs >= 0 ? (uint64_t)O.runs : H->runs(O.prop, O.tier);
+    uint64_t total = O.runs >= 0 ? (uint64_t)O.runs : H->runs(O.prop, O.tier);
+    if (O.runs_div > 1 && total > 0) { total /= (uint64_t)O.runs_div; if (!total) total = 1; }
     int W = O.jobs < 1 ? 1 : O.jobs;
     if ((uint64_t)W > total) W = (int)(total ? total : 1);
-    printf("sim: harness=%s property=%s tier=%s VERIF_SEED=%llu runs=%llu workers=%d\n", H->name(), O.prop.c_str(),
+    printf("sim: harness=%s build=%s property=%s tier=%s VERIF_SEED=%llu runs=%llu workers=%d\n", H->name(), BUILD_VARIANT, O.prop.c_str(),
            O.tier.thorough() ? "thorough" : "quick", (unsigned long long)O.seed, (unsigned long long)total, W);
     fflush(stdout);
 
@@ -720,6 +735,13 @@ static int run_batch() {
         cov["aborted_early"] = aborted;
         if (d.has("exhaustive")) cov["exhaustive"] = d.get("exhaustive");
         if (d.has("extra")) for (auto &p : d.get("extra").o) cov[p.first] = p.second;
+        {   // build variants this check ran: this pass and, when ./check ran one before it, the other build's pass
+            Json bv = Json::arr(), me = Json::obj();
+            me["build"] = BUILD_VARIANT; me["evaluations"] = (long long)R.evaluations; me["library_executions"] = (long long)R.execs;
+            me["distinct_nontrivial"] = (long long)dt->count.load(); me["violations"] = unknown_violations; bv.push(me);
+            Json other; if (!O.variant_summary.empty() && Json::load(O.variant_summary, other) && other.has("build")) bv.push(other);
+            cov["build_variants"] = bv;
+        }
         ev["coverage"] = cov;
         ev["assumptions"] = d.get("assumptions");
         ev["wall_s"] = (long long)(wall * 1000) / 1000;
@@ -736,6 +758,13 @@ static int run_batch() {
         if (f) { fwrite(txt.data(), 1, txt.size(), f); fputc('\n', f); fclose(f); }
     }
 
+    if (!O.summary_out.empty()) {
+        Json me = Json::obj();
+        me["build"] = BUILD_VARIANT; me["evaluations"] = (long long)R.evaluations; me["library_executions"] = (long long)R.execs;
+        me["distinct_nontrivial"] = (long long)dt->count.load(); me["violations"] = unknown_violations; me["known_findings_hit"] = known_hits;
+        me["harness_errors"] = harness_errors; me["wall_ms"] = (long long)(wall * 1000);
+        me.save(O.summary_out.c_str());
+    }
     printf("sim: %llu runs, %llu library executions, %llu steps, %llu distinct non-trivial fingerprints, %.1fs; violations=%d known=%d harness_errors=%d\n",
            (unsigned long long)R.evaluations, (unsigned long long)R.execs, (unsigned long long)R.steps, (unsigned long long)dt->count.load(), wall,
            unknown_violations, known_hits, harness_errors);
@@ -786,6 +815,9 @@ int sim_main(int argc, char **argv, Harness &h) {
         else if (a == "--no-evidence") O.no_evidence = true;
         else if (a == "--shrink-budget") O.shrink_budget = atoi(next().c_str());
         else if (a == "--stop-early") O.stop_early = true;
+        else if (a == "--runs-div") O.runs_div = atoll(next().c_str());
+        else if (a == "--summary-out") O.summary_out = next();
+        else if (a == "--variant-summary") O.variant_summary = next();
         else { fprintf(stderr, "unknown option %s\n", a.c_str()); return 2; }
     }
     (void)tier_given;
